@@ -286,11 +286,11 @@ class ModeMachine(ohist.Machine):
 
     def canon(self, impl, model):
         # model fields + how the last context was left + whether something raised inside the open
-        # context + the implementation's own mode flags if it exposes them under these names (only
-        # used to keep states apart, never judged)
+        # context + every simple-valued (bool / int / str / None) attribute of the object, whatever it is
+        # called (mode flags, "implicit context" markers ...): only used to keep states apart, never judged
         t = impl.tdf
-        return (model["aw"], model["ctx"], model["ctx_w"], model["live"], model["last_exit"], model["failed_in_ctx"],
-                getattr(t, "_mode", None), getattr(t, "_inside_context", None))
+        flags = tuple(sorted((k, v) for k, v in vars(t).items() if isinstance(v, (bool, int, str, type(None)))))
+        return (model["aw"], model["ctx"], model["ctx_w"], model["live"], model["last_exit"], model["failed_in_ctx"], flags)
 
     def nontrivial(self, model):
         return True
